@@ -319,7 +319,8 @@ class StmtGen:
             steps.append([self.d(st.sampled_from(["union", "union_all", "intersect", "except_of"])), [["q", other]]])
             # clauses of the set operation itself
             if tk and self.flag("setop_tail", 0.5):
-                aliased = [t for t in sel if t[0] == "as"]
+                # a compound ORDER BY names result columns: aliased items, or plain columns of the first operand's select list
+                aliased = [t for t in sel if t[0] in ("as", "col")]
                 if aliased and self.d(st.booleans()):
                     steps.append(["orderby", [self.d(st.sampled_from(aliased))]])
                 if self.d(st.booleans()):
